@@ -9,10 +9,11 @@ from . import driver
 
 
 class Group:
-    def __init__(self, pkg, jobs, tests=False):
+    def __init__(self, pkg, jobs, tests=False, files=None):
         self.pkg = pkg
         self.jobs = jobs
         self.tests = tests
+        self.files = tuple(files) if files else None  # harness files to overlay (None = all of the package's)
 
 
 def _fmt_case(job_res, model, tag=""):
@@ -59,7 +60,7 @@ def run_property(prop, tier, groups, required_covers=None, assumptions=None, bou
     impure = {}
     load_s = 0.0
     for g in groups:
-        out, err, wall = driver.run_engine(g.pkg, g.jobs, qtimeout_ms=qtimeout_ms, wall_timeout_s=wall_timeout_s, tests=g.tests)
+        out, err, wall = driver.run_engine(g.pkg, g.jobs, qtimeout_ms=qtimeout_ms, wall_timeout_s=wall_timeout_s, tests=g.tests, files=g.files)
         if err:
             problems.append("%s: %s" % (g.pkg, err))
             continue
@@ -93,9 +94,9 @@ def run_property(prop, tier, groups, required_covers=None, assumptions=None, bou
             for k, v in (jr.get("impure_fallbacks") or {}).items():
                 impure[k] = impure.get(k, 0) + v
             for v in jr.get("violations") or []:
-                violations.append((g.pkg, jr, v))
+                violations.append(((g.pkg, g.files), jr, v))
             for w in jr.get("witnesses") or []:
-                witnesses.append((g.pkg, jr, w))
+                witnesses.append(((g.pkg, g.files), jr, w))
 
     # ---- vacuity
     for c in required_covers or []:
@@ -110,10 +111,10 @@ def run_property(prop, tier, groups, required_covers=None, assumptions=None, bou
     by_pkg = {}
     for pkg, jr, v in violations:
         by_pkg.setdefault(pkg, []).append((jr, v))
-    for pkg, items in by_pkg.items():
+    for (pkg, files), items in by_pkg.items():
         cases = [_fmt_case(jr, v["model"], v["id"]) for jr, v in items]
         try:
-            res = driver.native_replay(pkg, cases)
+            res = driver.native_replay(pkg, cases, files=files)
         except RuntimeError as e:
             problems.append("native replay of counterexamples failed: %s" % str(e)[:1500])
             continue
@@ -151,10 +152,10 @@ def run_property(prop, tier, groups, required_covers=None, assumptions=None, bou
     wby = {}
     for pkg, jr, w in witnesses[:max_witness_replays]:
         wby.setdefault(pkg, []).append((jr, w))
-    for pkg, items in wby.items():
+    for (pkg, files), items in wby.items():
         cases = [_fmt_case(jr, w["model"], w.get("cover", "")) for jr, w in items]
         try:
-            res = driver.native_replay(pkg, cases)
+            res = driver.native_replay(pkg, cases, files=files)
         except RuntimeError as e:
             problems.append("native replay of witnesses failed: %s" % str(e)[:1500])
             continue
